@@ -184,6 +184,7 @@ package json
 //@   requires g.number == nil
 //@   maypanic
 //@   ensures panics <==> litKind(g.bytes) == 0
+//@   ensures panics ==> typeis(pv, string)
 //@   ensures normal ==> result == litKind(g.bytes)
 
 //@ func (GuessData).JsonType()
